@@ -215,6 +215,7 @@ struct Out {
     stats: BTreeMap<&'static str, usize>,
     direct: Vec<J>,
     samples: Vec<J>,
+    c02: bool,
 }
 
 fn run_doc(out: &mut Out, si: usize, sdl: &str, tsdoc: &TypeSystemDocument, schema: &Schema<Cow<str>, Pos>, text: &str, stream: &str) {
@@ -294,6 +295,15 @@ fn run_doc(out: &mut Out, si: usize, sdl: &str, tsdoc: &TypeSystemDocument, sche
                         "merge_safe": safe, "typename_alias_free": af, "classes": classes});
         if out.samples.len() < 3 && idx == 0 && out.descr.len() % 7 == 1 { out.samples.push(json!({"doc": text, "emitted_type": dj["emitted_type"]})); }
         out.descr.push(dj);
+        if out.c02 && !af {
+            // twin case: C02 with the aliased-__typename deviation read into Ref_local; its classes do not
+            // contain that class, so any other looseness of the same type is still reported
+            let classes2: Vec<&str> = classes.iter().copied().filter(|c| *c != "aliased-__typename-typed-String-or-null").collect();
+            out.terms.push((si, di, format!("CRelaxed {{S}} {{D}} {} {}", idx, ts_term)));
+            out.descr.push(json!({"kind": format!("{what} (C02 modulo aliased __typename)"), "stream": stream, "definition": idx, "name": name, "schema": sdl, "doc": text,
+                                  "emitted_type": printed_ty, "merge_safe": safe, "typename_alias_free": af, "classes": classes2}));
+            *out.stats.entry("relaxed_twin_cases").or_insert(0) += 1;
+        }
     }
 }
 
@@ -318,7 +328,7 @@ fn main() {
     let mut rng = Rng::new(args.seed);
     let thorough = args.tier == "thorough";
     let c02 = args.extra.windows(2).any(|w| w[0] == "--mode" && w[1] == "c02");
-    let mut out = Out { schemas: vec![], docs: vec![], terms: vec![], descr: vec![], distinct: HashSet::new(), stats: BTreeMap::new(), direct: vec![], samples: vec![] };
+    let mut out = Out { schemas: vec![], docs: vec![], terms: vec![], descr: vec![], distinct: HashSet::new(), stats: BTreeMap::new(), direct: vec![], samples: vec![], c02 };
 
     for (sdl, text) in corpus() {
         let tsdoc = load_schema(sdl).expect("corpus schema loads");
